@@ -117,6 +117,20 @@ def symbolise(ctx, node, namer=None, keep=DISCRIMINATORS, data="keep", list_vari
     return PTN(node.tag, attrs, kids, d)
 
 
+def assume_distinct_members(ctx, a, b):
+    """two stanzas of one shape stand for two different answers: list members (identified by their jid) differ between them"""
+    def jids(n, out):
+        for c in n.children:
+            j = c.attributes.get("jid") if isinstance(c.attributes, dict) else None
+            if j is not None and not isinstance(j, str):
+                out.append(j)
+            jids(c, out)
+        return out
+    for x in jids(a, []):
+        for y in jids(b, []):
+            ctx.assume(x != y)
+
+
 def val_eq(a, b):
     """equality of attribute values, numbers by value"""
     from sx.core import SymInt
